@@ -32,7 +32,7 @@ META = {
     "quick_s": 70, "thorough_s": 700,
 }
 
-IMPORTS = ("Logic.Restrict", "Logic.Perm")
+IMPORTS = ("Logic.Restrict", "Logic.Perm", "Logic.Contract")
 FUEL = 1500
 
 # hand-written witnesses (DESIGN §5 F10, F11) and neighbours, in the abstract syntax of proggen
@@ -125,6 +125,26 @@ def first_atom(g):
     return None
 
 
+def hyp_mentions_unknown(g, evars=frozenset()):
+    """an `if` hypothesis mentions an existential variable of the goal: resolving the goal with such a
+    hypothesis yields answers that subsume / are subsumed by the answers of the impls (the F16 situation)"""
+    k = g[0]
+    if k == "exists":
+        return hyp_mentions_unknown(g[2], evars | set(g[1]))
+    if k == "forall":
+        return hyp_mentions_unknown(g[2], evars)
+    if k == "and":
+        return any(hyp_mentions_unknown(x, evars) for x in g[1])
+    if k == "not":
+        return hyp_mentions_unknown(g[1], evars)
+    if k == "if":
+        for vs, h, body in g[1]:
+            if (pg.atom_vars(h) | set().union(*[pg.atom_vars(b) for b in body])) & evars:
+                return True
+        return hyp_mentions_unknown(g[2], evars)
+    return False
+
+
 def goal_names(text):
     return set(re.findall(r"\b[A-Z][A-Za-z0-9_]*\b", text)) - {"Normalize", "WellFormed", "FromEnv"}
 
@@ -155,7 +175,7 @@ def build_cases(ctx, rng):
         goals = [g for g in goals if not pg.is_floundering_prone(g)]
         for sv in (pg.SLG, pg.REC):
             cases.append(Case("frag", p, pg.to_text(p), goals, [pg.goal_text(g) for g in goals], sv, "Fresh"))
-    for _ in range(ctx.n(50, 500)):
+    for _ in range(ctx.n(40, 500)):
         p = pg.gen_program(rng)
         gg = pg.GoalGen(rng, p)
         goals = [g for g in gg.goals(2, 2, 2) if not pg.is_floundering_prone(g)]
@@ -164,7 +184,7 @@ def build_cases(ctx, rng):
         mode = "History" if rng.random() < 0.3 else "Fresh"
         cases.append(Case("frag", p, pg.to_text(p), goals, [pg.goal_text(g) for g in goals], sv, mode))
     from checks import c07
-    for _ in range(ctx.n(14, 120)):
+    for _ in range(ctx.n(10, 120)):
         p = ag.gen_program(rng)
         gs = c07.make_goals(rng, p, 5)
         sv = rng.choice([pg.SLG, pg.REC])
@@ -249,7 +269,13 @@ def run(ctx):
                     if nontrivial:
                         ctx.sample({"program": c.text[:300], "printed": str(printed)[:300], "goal": gt, "solver": sname, "answer": sx.to_sexp(oa[2])[:120]})
                     continue
-                if sname == "slg" and c.kind == "frag":
+                wrapper_name = "slg" if sx.head(c.solver) in ("Slg", "SlgWith") else "rec"
+                fx = ctx.match_known(None, "replay-solver-differs-from-recording-solver") if sname != wrapper_name else None
+                if fx:
+                    # the wrapper records what the solver that ran through it asked for; another solver may ask for more
+                    ctx.known_finding(fx, gt)
+                    stats["known:cross-solver"] += 1
+                elif sname == "slg" and c.kind == "frag":
                     pending.append((ci, gi, oa, na, gdesc))
                 else:
                     ctx.violation(dict(gdesc, kind="answer-differs-on-printed-program", solver=sname, original=sx.to_sexp(oa), printed_answer=sx.to_sexp(na)))
@@ -303,7 +329,14 @@ def run(ctx):
         c = cases[ci]
         q, _ = pg.query_model(c.goals[gi], c.prog.symtab())
         defs.setdefault("P%d" % ci, ("program", pg.to_model(c.prog)))
-        exprs.append((["P%d" % ci], "N.add (if f16_class P%d %s then 1%%N else 0%%N) (if f1_class P%d %s then 2%%N else 0%%N)" % (ci, sx.to_coq(q), ci, sx.to_coq(q))))
+        g = c.goals[gi]
+        if pg.has_exists(g):
+            from checks import c03
+            cands = [[pg.ty_model(t, c.prog.symtab(), None) for t in tup] for tup in c03.cand_tuples(rng, c.prog, g, 40)]
+            f7 = "(if f7q_query %d P%d %s %s then 4%%N else 0%%N)" % (FUEL, ci, sx.to_coq(q), ("(%s : list (list ty))" % sx.to_coq(cands)) if cands else "[]")
+        else:
+            f7 = "(if f7q_class %d P%d %s then 4%%N else 0%%N)" % (FUEL, ci, sx.to_coq(pg.goal_model(g, c.prog.symtab())))
+        exprs.append((["P%d" % ci], "N.add (N.add (if f16_class P%d %s then 1%%N else 0%%N) (if f1_class P%d %s then 2%%N else 0%%N)) %s" % (ci, sx.to_coq(q), ci, sx.to_coq(q), f7)))
         emeta.append(("class", k, None))
     codes, fail = logic.coq_codes(ctx.work, "c23", defs, exprs, shard=max(16, len(exprs) // 8 + 1), imports=IMPORTS, timeout=1200)
     if fail:
@@ -320,10 +353,15 @@ def run(ctx):
         else:
             ci, gi, oa, na, gdesc = pending[a]
             f = None
+            kinds = {sx.head(oa[2]), sx.head(na[2])}
             if code % 2 == 1:
                 f = ctx.match_known(None, "F16")
-            if f is None and code >= 2 and sx.head(oa[2]).startswith("Ambig") and sx.head(na[2]).startswith("Ambig"):
+            if f is None and (code // 2) % 2 == 1 and sx.head(oa[2]).startswith("Ambig") and sx.head(na[2]).startswith("Ambig"):
                 f = ctx.match_known(None, "F1")
+            if f is None and code >= 4 and "NoSolution" in kinds:
+                f = ctx.match_known(None, "F7q")
+            if f is None and hyp_mentions_unknown(cases[ci].goals[gi]) and "Unique" in kinds and any(k.startswith("Ambig") for k in kinds):
+                f = ctx.match_known(None, "F16-hypothesis-mentions-unknown")
             if f:
                 ctx.known_finding(f, gdesc["goal"])
                 stats["known:%s" % f["id"]] += 1
@@ -337,7 +375,7 @@ def run(ctx):
                        "program were compared; non-trivial = the original answer is not NoSolution; distinct by (program, sequence, wrapper solver, mode, goal, solver)")
     ctx.cov["input_distribution"] = {"cases": len(cases), "families": dict(collections.Counter(c.kind for c in cases)),
                                      "modes": dict(collections.Counter(c.mode for c in cases)), "outcomes": dict(stats)}
-    ctx.cov["known_class_share"] = round((stats.get("known:F16", 0) + stats.get("known:F1", 0) + stats.get("known:F11-rest", 0)) / max(1, stats["slg:compared"] + stats["rec:compared"]), 4)
+    ctx.cov["known_class_share"] = round((stats.get("known:F16", 0) + stats.get("known:F1", 0) + stats.get("known:F11-rest", 0) + stats.get("known:cross-solver", 0)) / max(1, stats["slg:compared"] + stats["rec:compared"]), 4)
     ctx.cov["inconclusive"] = stats.get("oracle:inconclusive", 0) + stats.get("not-comparable(limits/panic)", 0)
 
 
